@@ -96,6 +96,12 @@ func (h *inFlightRequestsHandler) onOutgoingFrameEnqueued(f *frame.Frame) (InFli
 			return inFlight, nil
 		}
 	}
+	if managedStreamId {
+		// the request was refused after a stream id was borrowed: give the id back, and leave the frame as it was
+		// handed in; releasing can only fail if the handler was closed in the meantime, and the pool is gone then
+		_ = h.releaseStreamId(streamId)
+		f.Header.StreamId = ManagedStreamId
+	}
 	return nil, err
 }
 
